@@ -416,7 +416,7 @@ func c01RunCorruption(r *vcore.Run, c c01Corruption) {
 	ctx := context.Background()
 	mem := ocimem.New()
 	var dig ociregistry.Digest
-	if c.Entry == "GetBlob" {
+	if c.Entry == "GetBlob" || strings.HasPrefix(c.Entry, "GetBlobRange") {
 		d, err := mem.PushBlob(ctx, "r", descOf(mtOctet, c.Content), bytes.NewReader(c.Content))
 		if err != nil {
 			panic(err)
@@ -431,7 +431,7 @@ func c01RunCorruption(r *vcore.Run, c c01Corruption) {
 	}
 	client, tr := httpStack(mem, nil, nil)
 	tr.Mangle = func(req *http.Request, status *int, header http.Header, body *[]byte) bool {
-		if req.Method != "GET" || *status != 200 {
+		if req.Method != "GET" || (*status != 200 && !(*status == 206 && strings.HasPrefix(c.Entry, "GetBlobRange"))) {
 			return false
 		}
 		unknown := false
@@ -453,9 +453,28 @@ func c01RunCorruption(r *vcore.Run, c c01Corruption) {
 			rd, err = client.GetManifest(ctx, "r", dig)
 		case "GetTag":
 			rd, err = client.GetTag(ctx, "r", "t")
+		case "GetBlobRange":
+			rd, err = client.GetBlobRange(ctx, "r", dig, 0, -1)
+		case "GetBlobRangeInner":
+			rd, err = client.GetBlobRange(ctx, "r", dig, 1, int64(len(c.Content)))
 		}
 		if err != nil {
 			r.Outcome("open-failed")
+			return
+		}
+		if strings.HasPrefix(c.Entry, "GetBlobRange") {
+			// range readers are not digest-verified, but a body cut short of what the response
+			// announced is still an error, never a clean end with a prefix of the slice
+			wantLen := len(c.Content)
+			if c.Entry == "GetBlobRangeInner" {
+				wantLen--
+			}
+			data, rerr := c01Drain(rd, c.Drain)
+			rd.Close()
+			if rerr == nil && len(data) < wantLen {
+				r.Violate("corrupt", fp+"/short-range-body-with-clean-eof/"+c.Drain, c, fmt.Sprintf("%d bytes or an error", wantLen), fmt.Sprintf("clean EOF after %d bytes %q", len(data), data))
+			}
+			r.Outcome("range-read")
 			return
 		}
 		desc := rd.Descriptor()
@@ -592,6 +611,19 @@ func c01Check(r *vcore.Run) vcore.Coverage {
 			}
 			c.Drain = drain
 			corr = append(corr, c)
+		}
+	}
+	// range reads: the body cut short at every length, headers left as the server wrote them
+	for _, entry := range []string{"GetBlobRange", "GetBlobRangeInner"} {
+		for _, content := range small {
+			if len(content) < 2 {
+				continue
+			}
+			for k := 0; k < len(content); k++ {
+				for _, drain := range []string{"", "copy-buffer", "copy-writer", "byte-reads", "one-big-read"} {
+					corr = append(corr, c01Corruption{Entry: entry, Content: content, Mods: []string{fmt.Sprintf("trunc%d", k)}, Drain: drain})
+				}
+			}
 		}
 	}
 	vcore.ParallelN(len(corr), func(i int) { c01RunCorruption(r, corr[i]) })
